@@ -49,6 +49,17 @@ class SReal(V):
         return "SReal(%s)" % self.t
 
 
+class SArr(V):
+    """a z3 array term carried as a value (ghost maps of modelled containers)"""
+    __slots__ = ("t",)
+
+    def __init__(self, t):
+        self.t = t
+
+    def __repr__(self):
+        return "SArr(%s)" % self.t
+
+
 class SNone(V):
     def __repr__(self):
         return "None"
